@@ -10,7 +10,8 @@ MIN_NONTRIVIAL = 0.4
 RULE = ("Hypothesis: well-formed sequences on 2 channels with time/key signatures and control/program changes as noise, any "
         "construction route / freshness state; op in {pad(n), cutoff(m, r<=m), scale(k in 1..8, quantise_afterwards=False), "
         "set_channel(c in 0..15)} with n drawn around the duration (0, d-1, d, d+1, large) and m around the note lengths "
-        "(a note of length exactly m is forced in half of the cutoff cases). Oracle: exact model on raw events of both views. "
+        "(a note of length exactly m is forced in half of the cutoff cases); a fifth of the pad/cutoff/set_channel inputs is a sequence "
+        "concatenated with itself (one message object at two positions). Oracle: exact model on raw events of both views. "
         "Non-trivial: n in {d-1,d,d+1}, a note of length m or m+1, k >= 2, or a multi-channel input for set_channel. "
         "Distinct by case digest.")
 ASSUMPTIONS = ["cutoff: total duration is not part of the statement and is not compared",
